@@ -16,6 +16,9 @@ CHECKS = {
     "C18": ("CrossHair symbolic execution of the real DiffNode.compare/nodes/status/_type and DirDiff.get over symbolic directory-tree pairs against a changed-path-set oracle and an ordered-replay oracle",
             "trusted: CrossHair/z3 models of dict/set/str/pathlib; stand-in node class re-using DiffNode's real functions (cross-checked natively; a subset of partitions runs the real pydantic model on the pure-Python pydantic build); bounds: universe a,b,a/x,a/y (thorough: +a/x/p,b/x), leaf strings length 1 (thorough 2)",
             "4/C18"),
+    "C19": ("CrossHair symbolic execution of the real hashsum chunk loop (symbolic content + short-read schedule, recording hash) and dir_hashsums/rel_symlink over an in-memory directory with symbolic entry kinds, contents, link targets and visiting order; counterexamples replayed on a real temp directory with real hashlib",
+            "trusted: SHA-256 injectivity (recording hash stands in); in-memory directory stub (validated natively against a real directory); no link chains; bounds: <=3 entries (a,d,d/x) or 2x2 entries, 3 contents, 5 link targets, content <=4 bytes",
+            "4/C19"),
 }
 
 NA = {
